@@ -78,6 +78,15 @@ Proof.
   - apply (sub_invariant m n); try assumption; [exact (normalize_wf n data d W H)| |]; intros cr; now apply dom_data_cols.
 Qed.
 
+(** without a floor on the values (since fix c3bd83b nothing in the evaluation compares an energy with an absolute
+    threshold): subdivision for every component set with non-negative values, also from the declared components *)
+Theorem C09_subdivide_any_values : forall m n meta nd fs k area lm data, (0 < m)%nat -> wf n data -> nonneg_data data ->
+  ep_rel (sub_rel m) (energy_performance (mkComponents meta data nd) fs k area lm)
+                     (energy_performance (mkComponents meta (sub_data m data) nd) fs k area lm).
+Proof.
+  intros m n meta nd fs k area lm data Hm Hwf Hn. apply (sub_invariant m n); try assumption; intros cr; apply nonneg_cols; [exact Hn|now apply nonneg_sub].
+Qed.
+
 (** equal weighted parts and k give equal step A / step B weighted energy *)
 Theorem C09_same_results : forall R b b', bal_rel R b b' -> bc_we b = bc_we b'.
 Proof. intros R b b' (_ & P & K). unfold bc_we. now rewrite P, K. Qed.
@@ -97,3 +106,4 @@ Print Assumptions C09_normalize_perm.
 Print Assumptions C09_normalize_subdivide.
 Print Assumptions C09_perm_declared.
 Print Assumptions C09_subdivide_declared.
+Print Assumptions C09_subdivide_any_values.
